@@ -222,6 +222,14 @@ def lean_axioms(prop_id, built_modules=None):
     return axioms, out
 
 
+def leanchecker(modules, timeout=1800):
+    """Independent re-check of the compiled .olean files (thorough tier). Returns (ok, output)."""
+    if not modules:
+        return True, ''
+    p = _lake(['env', 'leanchecker'] + list(modules), timeout=timeout)
+    return p.returncode == 0, p.stdout[-1500:]
+
+
 def run_driver(lines, timeout=3600):
     """Feed protocol lines to the Lean driver; return its output lines."""
     env = dict(os.environ)
